@@ -272,7 +272,7 @@ def _round_family(name, x):
         if isinstance(e, float):
             return float(getattr(_np, name)(e))
         r = e.t
-        if e.dy is not None and e.dy[1] == 0:
+        if e.dy is not None and e.dy[1] <= 0:
             return e
         fl = core.CTX.floor(r)
         if name == 'floor':
